@@ -26,7 +26,7 @@ import collections
 import numpy as np
 
 from .contract import Contract, attach
-from .contracts_iindex import RES, _is_idx, _map_array, view_clause, wf_clauses, wf_ok
+from .contracts_iindex import RES, _map_array, view_clause, wf_clauses, wf_ok
 from .speclib import describe, is_mode, snap, view
 
 QF = "iindexes.iindex.from_array"
@@ -101,7 +101,7 @@ def path_of(arr, counts_given, common, mapping):
             cc = final.get(mapping[common] if mapping is not None else common, 0)
         ratio = (sum(final.values()) - cc) / float(size)
         if ratio == 0:
-            strategy = "undefined(uncommon_ratio=0)"
+            strategy = "rowscan(uncommon_ratio=0)"
         else:
             strategy = "where" if (ndist / ratio) < 100 else "rowscan"
     return {"counts": "given" if counts_given else "omitted", "mapping": "given" if mapping is not None else "omitted",
